@@ -208,6 +208,11 @@ class _Builder:
             t1, f1 = self.cond(e['l'], preds)
             t2, f2 = self.cond(e['r'], f1)
             return t1 + t2, f2
+        if k == 'cond':
+            tc, fc = self.cond(e['c'], preds)
+            ta, fa = self.cond(e['t'], tc)
+            tb, fb = self.cond(e['e'], fc)
+            return ta + tb, fa + fb
         if k == 'cast' and not has_side_effects(e):
             # (cJSON_bool)x as a condition is x as a condition when the cast is to an integer type
             pass
